@@ -10,6 +10,8 @@ package main
 
 import (
 	"fmt"
+	"os"
+	"path/filepath"
 	"strings"
 
 	"verifharness/lib"
@@ -157,16 +159,90 @@ func main() {
 			}
 		}
 	}
+	// the adjunct-configuration variant: the shape zoo, the keyword zoo and every fourth random schema are
+	// generated a second time with every AdjunctCfg override in use; their cases run there as well
+	// (ids ending in .adj), under the same predictions
+	if fl.Replay == "" {
+		adjSchema := map[int]bool{}
+		for si, t := range schemas {
+			if strings.HasPrefix(t.Name, "Z") || (strings.HasPrefix(t.Name, "G") && si%4 == 0) {
+				adjSchema[si] = true
+			}
+		}
+		for _, c := range append([]*caseRec(nil), cases...) {
+			if adjSchema[c.si] {
+				cases = append(cases, &caseRec{id: c.id + ".adj", si: c.si, level: c.level, route: c.route, v: c.v})
+			}
+		}
+		for i, t := range lib.SchKeywordZoo() {
+			lib.SchAssignNames(t, fmt.Sprintf("K%d", i))
+			si := len(schemas)
+			schemas = append(schemas, t)
+			for _, level := range []byte{'t', 'r'} {
+				for j := 0; j < 6; j++ {
+					var mut *lib.SchMut
+					if j >= 3 {
+						mut = &lib.SchMut{R: rng, Budget: 1, Rate: 25}
+					}
+					v := rng.SchValue(t, level, mut)
+					base := fmt.Sprintf("k%d.%c%d", i, level, j)
+					for _, r := range []string{"direct", "cbor", "node"} {
+						if r == "node" && (!t.AssignNodeSafe() || v.HasDupKeys()) {
+							continue
+						}
+						cases = append(cases, &caseRec{id: base + "." + r + ".adj", si: si, level: level, route: r, v: v})
+					}
+				}
+			}
+		}
+	}
 	runBind(schemas, cases)
 
-	// one generated package per batch of schemas (harness/schgen)
-	var gc []*schgen.Case
+	// one generated package per batch of schemas (harness/schgen); cases .adj go to the variant's packages
+	isAdj := func(c *caseRec) bool { return strings.HasSuffix(c.id, ".adj") }
+	var gc, ga []*schgen.Case
+	var schemasA []*lib.SchTy
+	mapA := map[int]int{}
 	for _, c := range cases {
-		gc = append(gc, &schgen.Case{ID: c.id, SI: c.si, Op: "build", Level: c.level, Route: c.route, V: c.v})
+		g := &schgen.Case{ID: c.id, SI: c.si, Op: "build", Level: c.level, Route: c.route, V: c.v}
+		if isAdj(c) {
+			if _, ok := mapA[c.si]; !ok {
+				mapA[c.si] = len(schemasA)
+				schemasA = append(schemasA, schemas[c.si])
+			}
+			g.SI = mapA[c.si]
+			ga = append(ga, g)
+		} else {
+			gc = append(gc, g)
+		}
 	}
-	schgen.Run("c13-"+run, schemas, gc, rng, true)
-	for i, c := range cases {
-		c.gen = gc[i].Obs
+	// the main packages hold every schema that is not variant-only
+	var schemasM []*lib.SchTy
+	mapM := map[int]int{}
+	for _, g := range gc {
+		if _, ok := mapM[g.SI]; !ok {
+			mapM[g.SI] = len(schemasM)
+			schemasM = append(schemasM, schemas[g.SI])
+		}
+		g.SI = mapM[g.SI]
+	}
+	if len(gc) > 0 || len(ga) == 0 {
+		schgen.Run("c13-"+run, schemasM, gc, rng, true)
+	} else {
+		os.Remove(filepath.Join("build", "gen", "status-c13-"+run+".json"))
+	}
+	if len(ga) > 0 {
+		schgen.RunAdj("c13-"+run, schemasA, ga, rng)
+	}
+	gi, ai := 0, 0
+	for _, c := range cases {
+		if isAdj(c) {
+			c.gen = ga[ai].Obs
+			ai++
+		} else {
+			c.gen = gc[gi].Obs
+			gi++
+		}
 	}
 
 	for _, c := range cases {
